@@ -52,6 +52,38 @@ impl<'a, T> Content<'a, T> {
     }
 //@end
 
+//@extract fn src/merkle_reg.rs "Content" values
+    pub fn values(&self) -> /*@ (r: @*/ impl Iterator<Item = &T> /*@ ) @*/
+    //@ ensures r.obeys_prophetic_iter_laws(), r.decrease() is Some,
+    //@     // C15 observation: the values of exactly the nodes of this content, in hash order
+    //@     hash_ok() ==> exists|ks: Seq<Hash>| #[trigger] content_order(ks, self.nd()) && r.remaining() == ks.map_values(|k: Hash| &self.nd()[k].value),
+    {
+        //@ let ghost g = |n: &&Node<T>| &n.value;
+        /*@ let it0 = @*/ self.nodes.values() /*@ ; let ghost es = it0.remaining(); proof { crate::stdx5::axiom_btree_values_finite(&it0); } let r0 = crate::stdx5::shim_iter_map(it0, Ghost(g), @*/ /*@<*/ .map( /*@>*/ |n /*@ : &&Node<T> @*/ | /*@ -> (o: &T) ensures o == g(n) { @*/ &n.value /*@ } @*/ ) /*@ ; proof { if hash_ok() { let m = self.nodes@; let ks = choose|ks: Seq<Hash>| vstd::std_specs::btree::increasing_seq(ks) && ks.to_set() == m.dom() && ks.no_duplicates() && es == ks.map(|i: int, k: Hash| &m[k]); assert(content_order(ks, self.nd())); assert(r0.remaining() =~= ks.map_values(|k: Hash| &self.nd()[k].value)); } } r0 @*/
+    }
+//@end
+
+//@extract fn src/merkle_reg.rs "Content" nodes
+    pub fn nodes(&self) -> /*@ (r: @*/ impl Iterator<Item = &Node<T>> /*@ ) @*/
+    //@ ensures r.obeys_prophetic_iter_laws(), r.decrease() is Some,
+    //@     hash_ok() ==> exists|ks: Seq<Hash>| #[trigger] content_order(ks, self.nd()) && r.remaining() == ks.map_values(|k: Hash| self.nd()[k]),
+    {
+        /*@ let it0 = @*/ self.nodes.values() /*@ ; let ghost es = it0.remaining(); proof { crate::stdx5::axiom_btree_values_finite(&it0); } let r0 = crate::stdx5::shim_iter_copied(it0); proof { if hash_ok() { let m = self.nodes@; let ks = choose|ks: Seq<Hash>| vstd::std_specs::btree::increasing_seq(ks) && ks.to_set() == m.dom() && ks.no_duplicates() && es == ks.map(|i: int, k: Hash| &m[k]); assert(content_order(ks, self.nd())); assert(r0.remaining() =~= ks.map_values(|k: Hash| self.nd()[k])); } } r0 @*/ /*@<*/ .copied() /*@>*/
+    }
+//@end
+
+//@extract fn src/merkle_reg.rs "Content" hashes_and_nodes
+    pub fn hashes_and_nodes(&self) -> /*@ (r: @*/ impl Iterator<Item = (Hash, &Node<T>)> /*@ ) @*/
+    //@ ensures r.obeys_prophetic_iter_laws(), r.decrease() is Some,
+    //@     // every yielded pair is an entry of this content, and every entry is yielded
+    //@     hash_ok() ==> forall|i: int| 0 <= i < r.remaining().len() ==> self.nd().contains_key((#[trigger] r.remaining()[i]).0) && self.nd()[r.remaining()[i].0] == r.remaining()[i].1,
+    //@     hash_ok() ==> forall|k: Hash| self.nd().contains_key(k) ==> r.remaining().contains((k, self.nd()[k])),
+    {
+        //@ let ghost g = |p: (&Hash, &&Node<T>)| (*p.0, *p.1);
+        /*@ let it0 = @*/ self.nodes.iter() /*@ ; let ghost es = it0.remaining(); proof { crate::stdx5::axiom_btree_iter_finite(&it0); } let r0 = crate::stdx5::shim_iter_map(it0, Ghost(g), @*/ /*@<*/ .map( /*@>*/ /*@<*/ | /*@>*/ /*@<pat*/ (hash, node) /*@>*/ /*@<*/ | /*@>*/ /*@ |p: (&Hash, &&Node<T>)| -> (o: (Hash, &Node<T>)) ensures o == g(p) { let $pat = p; @*/ (*hash, *node) /*@ } @*/ ) /*@ ; proof { if hash_ok() { let rs = r0.remaining(); assert forall|i: int| 0 <= i < rs.len() implies self.nd().contains_key((#[trigger] rs[i]).0) && self.nd()[rs[i].0] == rs[i].1 by { assert(rs[i] == g(es[i])); assert(self.nodes@.contains_key(*es[i].0) && self.nodes@[*es[i].0] == *es[i].1); } assert forall|k: Hash| self.nd().contains_key(k) implies rs.contains((k, self.nd()[k])) by { assert(es.contains((&k, &self.nodes@[k]))); let i = choose|i: int| 0 <= i < es.len() && es[i] == (&k, &self.nodes@[k]); assert(rs[i] == g(es[i])); } } } r0 @*/
+    }
+//@end
+
 //@extract fn src/merkle_reg.rs "Content" hashes
     pub fn hashes(&self) -> /*@ (r: @*/ BTreeSet<Hash> /*@ ) @*/
     //@ ensures r@ == self.nd().dom(),
@@ -59,6 +91,11 @@ impl<'a, T> Content<'a, T> {
         /*@ shim_btreemap_keys_copied_collect(& @*/ self.nodes /*@ ) @*/ /*@<*/ .keys().copied().collect() /*@>*/
     }
 //@end
+}
+
+/// the hashes of a content in the order its iterators use (increasing), each once
+pub open spec fn content_order<'a, T>(ks: Seq<Hash>, m: SMap<Hash, &'a Node<T>>) -> bool {
+    vstd::std_specs::btree::increasing_seq(ks) && ks.to_set() == m.dom() && ks.no_duplicates()
 }
 
 //@extract struct src/merkle_reg.rs MerkleReg
